@@ -44,6 +44,10 @@ pub struct Case {
     /// thread (virtual, core/clock.rs) advances by SLOW_SECS[k-1] - a user who takes their time
     #[serde(default)]
     pub slow: u8,
+    /// the authenticator's transports as configured through the builder: 0 not called, 1 [], 2 [usb],
+    /// 3 [usb, usb], 4 [hybrid, internal, hybrid], 5 all five in reverse order
+    #[serde(default)]
+    pub transports: u8,
 }
 pub const SLOW_SECS: [u64; 4] = [11, 31, 3601, 90_000];
 
@@ -66,35 +70,35 @@ pub fn cases(tier: Tier) -> Vec<Case> {
                         continue;
                     }
                     let api = if c.op == Op::Make { "make_credential" } else { "get_assertion" };
-                    v.push(Case { api: api.into(), cfg: c.clone(), content, memory_store, prf, unknown_type: false, empty_list: false, fault: 0, big: 0, sloppy: false, slow: 0 });
+                    v.push(Case { api: api.into(), cfg: c.clone(), content, memory_store, prf, unknown_type: false, empty_list: false, fault: 0, big: 0, sloppy: false, slow: 0, transports: 0 });
                     // store failures with every status value of the menu, for the configurations in
                     // which the user consents and a matching credential exists / none is excluded
                     if !memory_store && !prf && c.outcome == 3 && c.cap == 2 && !c.pin && c.up && matches!(content, Content::MatchViaList | Content::NoMatch) {
                         for fault in 1..=21u8 {
-                            v.push(Case { api: api.into(), cfg: c.clone(), content, memory_store, prf, unknown_type: false, empty_list: false, fault, big: 0, sloppy: false, slow: 0 });
+                            v.push(Case { api: api.into(), cfg: c.clone(), content, memory_store, prf, unknown_type: false, empty_list: false, fault, big: 0, sloppy: false, slow: 0, transports: 0 });
                         }
                     }
                     // a store that lists more than was asked for
                     if !memory_store && !prf && matches!(content, Content::MatchViaList | Content::TwoViaList | Content::OtherRpOnly) {
-                        v.push(Case { api: api.into(), cfg: c.clone(), content, memory_store, prf, unknown_type: false, empty_list: false, fault: 0, big: 0, sloppy: true, slow: 0 });
+                        v.push(Case { api: api.into(), cfg: c.clone(), content, memory_store, prf, unknown_type: false, empty_list: false, fault: 0, big: 0, sloppy: true, slow: 0, transports: 0 });
                     }
                     // a slow user: the clock advances while the user step is pending
                     if !memory_store && c.outcome == 3 && c.cap == 2 && !c.pin && c.up && matches!(content, Content::MatchViaList | Content::MatchNoList | Content::NoMatch) {
                         for slow in 1..=SLOW_SECS.len() as u8 {
-                            v.push(Case { api: api.into(), cfg: c.clone(), content, memory_store, prf, unknown_type: false, empty_list: false, fault: 0, big: 0, sloppy: false, slow });
+                            v.push(Case { api: api.into(), cfg: c.clone(), content, memory_store, prf, unknown_type: false, empty_list: false, fault: 0, big: 0, sloppy: false, slow, transports: 0 });
                         }
                     }
                     // large user handles / ids: the response grows beyond 1 KiB and 4 KiB
                     if !prf && c.outcome == 3 && c.cap == 2 && !c.pin && c.up && matches!(content, Content::MatchViaList | Content::MatchNoList | Content::NoMatch) {
                         for big in 1..3u8 {
-                            v.push(Case { api: api.into(), cfg: c.clone(), content, memory_store, prf, unknown_type: false, empty_list: false, fault: 0, big, sloppy: false, slow: 0 });
+                            v.push(Case { api: api.into(), cfg: c.clone(), content, memory_store, prf, unknown_type: false, empty_list: false, fault: 0, big, sloppy: false, slow: 0, transports: 0 });
                         }
                     }
                     if matches!(content, Content::NoMatch | Content::MatchNoList | Content::TwoNoList) {
-                        v.push(Case { api: api.into(), cfg: c.clone(), content, memory_store, prf, unknown_type: false, empty_list: true, fault: 0, big: 0, sloppy: false, slow: 0 });
+                        v.push(Case { api: api.into(), cfg: c.clone(), content, memory_store, prf, unknown_type: false, empty_list: true, fault: 0, big: 0, sloppy: false, slow: 0, transports: 0 });
                     }
                     if matches!(content, Content::MatchViaList | Content::OtherRpOnly | Content::TwoViaList) && !prf {
-                        v.push(Case { api: api.into(), cfg: c.clone(), content, memory_store, prf, unknown_type: true, empty_list: false, fault: 0, big: 0, sloppy: false, slow: 0 });
+                        v.push(Case { api: api.into(), cfg: c.clone(), content, memory_store, prf, unknown_type: true, empty_list: false, fault: 0, big: 0, sloppy: false, slow: 0, transports: 0 });
                     }
                 }
             }
@@ -105,7 +109,9 @@ pub fn cases(tier: Tier) -> Vec<Case> {
             for memory_store in [false, true] {
                 for prf in [false, true] {
                     let cfg = C04Case { op: Op::Get, rk: false, up: true, uv: false, cap, presence_cap, outcome: 3, pin: false, arc_mutex: false, level: 0, uvreq: 0, ext: 0, wire: 0, flip: false };
-                    v.push(Case { api: "get_info".into(), cfg, content: Content::NoMatch, memory_store, prf, unknown_type: false, empty_list: false, fault: 0, big: 0, sloppy: false, slow: 0 });
+                    for transports in 0..6u8 {
+                        v.push(Case { api: "get_info".into(), cfg: cfg.clone(), content: Content::NoMatch, memory_store, prf, unknown_type: false, empty_list: false, fault: 0, big: 0, sloppy: false, slow: 0, transports });
+                    }
                 }
             }
         }
@@ -132,6 +138,10 @@ fn seeds_sized(content: Content, big: u8) -> (Vec<Passkey>, Option<Vec<Vec<u8>>>
         Content::TwoNoList => (vec![own.clone(), other.clone(), own2], None),
         Content::NoMatch => (vec![], None),
         Content::MatchViaList => (vec![other, own], Some(vec![cred_id(1)])),
+        Content::MatchViaLongList => {
+            let unknown = |k: u8| -> Vec<u8> { [vec![0xD0, k], vec![0x77; 14]].concat() };
+            (vec![other, own], Some((0..16u8).map(unknown).chain([cred_id(1)]).chain((16..39u8).map(unknown)).collect()))
+        }
         Content::MatchNoList => (vec![other, own], None),
         Content::OtherRpOnly => (vec![other], Some(vec![cred_id(2)])),
     }
@@ -195,6 +205,17 @@ where
         auth = auth.hmac_secret(HmacSecretConfig::new_without_uv().enable_on_make_credential());
     }
     auth.set_make_credentials_with_signature_counter(true);
+    {
+        use passkey_types::webauthn::AuthenticatorTransport as T;
+        auth = match c.transports {
+            1 => auth.transports(vec![]),
+            2 => auth.transports(vec![T::Usb]),
+            3 => auth.transports(vec![T::Usb, T::Usb]),
+            4 => auth.transports(vec![T::Hybrid, T::Internal, T::Hybrid]),
+            5 => auth.transports(vec![T::Internal, T::Hybrid, T::Ble, T::Nfc, T::Usb]),
+            _ => auth,
+        };
+    }
     let prf = || AuthenticatorPrfInputs { eval: Some(AuthenticatorPrfValues { first: [3; 32], second: Some([4; 32]) }), eval_by_credential: None };
     match c.api.as_str() {
         "get_info" => {
@@ -507,7 +528,7 @@ pub fn run(ctx: &Ctx) -> Result<Run, String> {
     }
     let mut run = Run::from_stats(
         "model_checking",
-        "differential enumeration: every configuration of the C04 product at CTAP2 level (operation, rk/up/uv, verification capability, validation outcome, pin-auth) x 4 store contents x {contract store, Arc<Mutex<MemoryStore>>} x PRF extension on/off x descriptor type {public-key, unknown}, store failures of find / save / update with seven status *values* (incl. Ctap1(Success), which shares byte 0x00 with Ctap2(Ok)), a sloppy store that lists every credential of the RP whatever ids are asked for, user handles / user ids of 900 and 4000 bytes (responses beyond 1 KiB / 4 KiB), repetition histories (one of eight granted / user-denied / dropped ceremonies 8, 9, 17 and 33 times in a row on one authenticator, then each of them as a probe, against fresh authenticators), a slow user (the user step suspends once and the thread's clock - virtual, the harness's own clock_gettime - advances by 11 s, 31 s, an hour, 25 hours while it is pending), and getInfo for every capability combination, plus all pairs (thorough: triples) of operations on ONE authenticator with a capability change in between (verification / presence / store capability), each run once through the inherent method and once through <Authenticator as Ctap2Api> on identically seeded authenticators inside isolated worker processes (8 MiB stack, 30 s watchdog); compared: result (status byte or full response incl. RFC 6979 signature bytes; fresh ids/keys normalised), store snapshot, store/user-validation call log. Non-trivial = distinct case whose direct call reached a verdict",
+        "differential enumeration: every configuration of the C04 product at CTAP2 level (operation, rk/up/uv, verification capability, validation outcome, pin-auth) x 4 store contents x {contract store, Arc<Mutex<MemoryStore>>} x PRF extension on/off x descriptor type {public-key, unknown}, store failures of find / save / update with seven status *values* (incl. Ctap1(Success), which shares byte 0x00 with Ctap2(Ok)), a sloppy store that lists every credential of the RP whatever ids are asked for, user handles / user ids of 900 and 4000 bytes (responses beyond 1 KiB / 4 KiB), repetition histories (one of eight granted / user-denied / dropped ceremonies 8, 9, 17 and 33 times in a row on one authenticator, then each of them as a probe, against fresh authenticators), a slow user (the user step suspends once and the thread's clock - virtual, the harness's own clock_gettime - advances by 11 s, 31 s, an hour, 25 hours while it is pending), and getInfo for every capability combination x six configured transports lists (default, empty, one, a repeated one, three with a repetition, five), plus all pairs (thorough: triples) of operations on ONE authenticator with a capability change in between (verification / presence / store capability), each run once through the inherent method and once through <Authenticator as Ctap2Api> on identically seeded authenticators inside isolated worker processes (8 MiB stack, 30 s watchdog); compared: result (status byte or full response incl. RFC 6979 signature bytes; fresh ids/keys normalised), store snapshot, store/user-validation call log. Non-trivial = distinct case whose direct call reached a verdict",
         true,
         stats,
     );
